@@ -50,64 +50,64 @@ def create_grid_and_mask(agent, grid, mask_range, agents):
             if -mask_range <= r_diff <= mask_range and \
                     -mask_range <= c_diff <= mask_range:
                 if c_diff > 0 and r_diff == 0: # Other is to the right of agent
-                    upper = lambda t: (r_diff + 0.5) / (c_diff - 0.5) * t
-                    lower = lambda t: (r_diff - 0.5) / (c_diff - 0.5) * t
+                    upper = lambda t: (2 * r_diff + 1) * t / (2 * c_diff - 1)
+                    lower = lambda t: (2 * r_diff - 1) * t / (2 * c_diff - 1)
                     for c in range(c_diff, mask_range+1):
                         for r in range(-mask_range, mask_range+1):
                             if c == c_diff and r == r_diff: continue # don't mask the other
                             if lower(c) < r < upper(c):
                                 mask[r + mask_range, c + mask_range] = 0
                 elif c_diff > 0 and r_diff > 0: # Other is below-right of agent
-                    upper = lambda t: (r_diff + 0.5) / (c_diff - 0.5) * t
-                    lower = lambda t: (r_diff - 0.5) / (c_diff + 0.5) * t
+                    upper = lambda t: (2 * r_diff + 1) * t / (2 * c_diff - 1)
+                    lower = lambda t: (2 * r_diff - 1) * t / (2 * c_diff + 1)
                     for c in range(c_diff, mask_range+1):
                         for r in range(r_diff, mask_range+1):
                             if c == c_diff and r == r_diff: continue # Don't mask the other
                             if lower(c) < r < upper(c):
                                 mask[r + mask_range, c + mask_range] = 0
                 elif c_diff == 0 and r_diff > 0: # Other is below the agent
-                    left = lambda t: (c_diff - 0.5) / (r_diff - 0.5) * t
-                    right = lambda t: (c_diff + 0.5) / (r_diff - 0.5) * t
+                    left = lambda t: (2 * c_diff - 1) * t / (2 * r_diff - 1)
+                    right = lambda t: (2 * c_diff + 1) * t / (2 * r_diff - 1)
                     for c in range(-mask_range, mask_range+1):
                         for r in range(r_diff, mask_range+1):
                             if c == c_diff and r == r_diff: continue # don't mask the other
                             if left(r) < c < right(r):
                                 mask[r + mask_range, c + mask_range] = 0
                 elif c_diff < 0 and r_diff > 0: # Other is below-left of agent
-                    upper = lambda t: (r_diff + 0.5) / (c_diff + 0.5) * t
-                    lower = lambda t: (r_diff - 0.5) / (c_diff - 0.5) * t
+                    upper = lambda t: (2 * r_diff + 1) * t / (2 * c_diff + 1)
+                    lower = lambda t: (2 * r_diff - 1) * t / (2 * c_diff - 1)
                     for c in range(c_diff, -mask_range-1, -1):
                         for r in range(r_diff, mask_range+1):
                             if c == c_diff and r == r_diff: continue # don't mask the other
                             if lower(c) < r < upper(c):
                                 mask[r + mask_range, c + mask_range] = 0
                 elif c_diff < 0 and r_diff == 0: # Other is left of agent
-                    upper = lambda t: (r_diff + 0.5) / (c_diff + 0.5) * t
-                    lower = lambda t: (r_diff - 0.5) / (c_diff + 0.5) * t
+                    upper = lambda t: (2 * r_diff + 1) * t / (2 * c_diff + 1)
+                    lower = lambda t: (2 * r_diff - 1) * t / (2 * c_diff + 1)
                     for c in range(c_diff, -mask_range-1, -1):
                         for r in range(-mask_range, mask_range+1):
                             if c == c_diff and r == r_diff: continue # don't mask the other
                             if lower(c) < r < upper(c):
                                 mask[r + mask_range, c + mask_range] = 0
                 elif c_diff < 0 and r_diff < 0: # Other is above-left of agent
-                    upper = lambda t: (r_diff + 0.5) / (c_diff - 0.5) * t
-                    lower = lambda t: (r_diff - 0.5) / (c_diff + 0.5) * t
+                    upper = lambda t: (2 * r_diff + 1) * t / (2 * c_diff - 1)
+                    lower = lambda t: (2 * r_diff - 1) * t / (2 * c_diff + 1)
                     for c in range(c_diff, -mask_range - 1, -1):
                         for r in range(r_diff, -mask_range - 1, -1):
                             if c == c_diff and r == r_diff: continue # don't mask the other
                             if lower(c) < r < upper(c):
                                 mask[r + mask_range, c + mask_range] = 0
                 elif c_diff == 0 and r_diff < 0: # Other is above the agent
-                    left = lambda t: (c_diff - 0.5) / (r_diff + 0.5) * t
-                    right = lambda t: (c_diff + 0.5) / (r_diff + 0.5) * t
+                    left = lambda t: (2 * c_diff - 1) * t / (2 * r_diff + 1)
+                    right = lambda t: (2 * c_diff + 1) * t / (2 * r_diff + 1)
                     for c in range(-mask_range, mask_range+1):
                         for r in range(r_diff, -mask_range - 1, -1):
                             if c == c_diff and r == r_diff: continue # don't mask the other
                             if left(r) < c < right(r):
                                 mask[r + mask_range, c + mask_range] = 0
                 elif c_diff > 0 and r_diff < 0: # Other is above-right of agent
-                    upper = lambda t: (r_diff + 0.5) / (c_diff + 0.5) * t
-                    lower = lambda t: (r_diff - 0.5) / (c_diff - 0.5) * t
+                    upper = lambda t: (2 * r_diff + 1) * t / (2 * c_diff + 1)
+                    lower = lambda t: (2 * r_diff - 1) * t / (2 * c_diff - 1)
                     for c in range(c_diff, mask_range+1):
                         for r in range(r_diff, -mask_range - 1, -1):
                             if c == c_diff and r == r_diff: continue # don't mask the other
